@@ -28,6 +28,9 @@ pub struct Obs {
     pre_tree: Option<Vec<u8>>,
     /// last genuine public message of each kind, for field splicing: (kind, bytes)
     last_public: Vec<(&'static str, Vec<u8>)>,
+    /// genuine handshake messages of earlier epochs that were never delivered to anyone (made by a discarded clone of a
+    /// member): (epoch, sender, kind, bytes). Replayed into later epochs they must be rejected by everyone.
+    withheld: Vec<(u64, usize, &'static str, Vec<u8>)>,
 }
 
 /// Mutations without the "append a trailing byte" kind (not a modification of what the sender produced).
@@ -459,6 +462,119 @@ impl Obs {
         Ok(())
     }
 
+    /// Insider, complete: the committer builds whole commits by hand with the reference model (see `forge.rs`). The honest
+    /// one must be accepted and lead to the predicted epoch authenticator; each tampered one differs in exactly one respect.
+    fn full_forgeries(&mut self, w: &World, sender: usize, receiver: usize, genuine: &[u8]) -> CaseResult {
+        use crate::forge::{forge, lca_position, ForgeInput, Tamper};
+        use crate::refmodel::tree::RefTreeNodes;
+        let Some(pm) = wire::parse_public_message(genuine) else { return Ok(()) };
+        let (Some(_), Some(pre_tree)) = (pm.membership_tag, self.pre_tree.clone()) else { return Ok(()) };
+        if pm.spans.iter().all(|x| x.name != "commit.path.leaf_node") {
+            return Ok(());
+        }
+        // only commits without proposals that touch the tree, the PSK secret or the context: none, or custom ones by value
+        let plain = pm.spans.iter().filter(|x| x.name.starts_with("commit.proposals[")).all(|x| {
+            !x.name.ends_with("].reference") && (!x.name.ends_with("].proposal_type") || u16::from_be_bytes([genuine[x.start], genuine[x.start + 1]]) >= 8)
+        });
+        if !plain || w.parties[sender].pending_identity.is_some() {
+            return Ok(());
+        }
+        let keys = w.parties[sender].g().verif_epoch_keys();
+        let ctx = w.parties[sender].g().context().mls_encode_to_vec().expect("ctx");
+        let leaf = w.parties[sender].leaf();
+        let csp = w.parties[sender].suite_provider(w.cfg.suite);
+        let seed = self.rng.bytes(32);
+        let input = ForgeInput {
+            suite: w.cfg.suite,
+            csp: &csp,
+            genuine,
+            tree: &pre_tree,
+            group_context: &ctx,
+            init_secret: &keys.key_schedule.init_secret,
+            membership_key: &keys.key_schedule.membership_key,
+            interim_transcript_hash: &keys.interim_transcript_hash,
+            leaf_index: leaf,
+            leaf_signer: &w.parties[sender].signer,
+            content_signer: &w.parties[sender].signer,
+            seed: &seed,
+        };
+        let Some(honest) = forge(&input, &Tamper::default()) else {
+            self.ev.class("full_forger:not_applicable");
+            return Ok(());
+        };
+        let t = w.now();
+        // positive control
+        {
+            let mut clone = w.parties[receiver].g().clone();
+            let before = clone.current_epoch();
+            let r = guard(|| clone.process_incoming_message_with_time(MlsMessage::from_bytes(&honest.bytes)?, t)).map(|_| ());
+            match r {
+                Err(e) if e.is_panic() => return Err(panic_failure(P, "process_incoming_message(hand-built commit)", &e)),
+                Err(e) => {
+                    // the model does not reproduce this commit shape: say so in the evidence, forge nothing from it
+                    self.ev.class(&format!("full_forger_control_failed:{}", e.class()));
+                    self.ev.sample("full_forger_control_failed", || serde_json::json!({"kind": "hand-built commit rejected", "error": e.text(), "suite": w.cfg.suite, "provider": w.parties[sender].provider.name()}));
+                    return Ok(());
+                }
+                Ok(()) => {
+                    let auth = clone.epoch_authenticator().map(|a| a.to_vec()).unwrap_or_default();
+                    if clone.current_epoch() != before + 1 || auth != honest.epoch_authenticator {
+                        return Err(fail(
+                            "hand_built_commit_accepted_with_unexpected_result",
+                            format!("receiver {receiver}: epoch {} -> {}, authenticator matches the reference key schedule: {}", before, clone.current_epoch(), auth == honest.epoch_authenticator),
+                        ));
+                    }
+                    self.ev.class("full_forger_control:accepted_and_authenticator_predicted");
+                }
+            }
+        }
+        let Some(tree) = RefTreeNodes::parse(&pre_tree) else { return Ok(()) };
+        let rleaf = w.parties[receiver].leaf();
+        let Some(pos) = lca_position(&tree, &honest.fdp, rleaf) else { return Ok(()) };
+        // which resolution entry this receiver decrypts from: itself if listed, otherwise its lowest listed ancestor
+        let reso = &honest.resolution[pos];
+        let my_k = reso.iter().position(|x| *x == 2 * rleaf).or_else(|| {
+            reso.iter().position(|x| {
+                let (lo, hi) = tree.math.range[*x as usize];
+                rleaf >= lo && rleaf < hi
+            })
+        });
+        let n = honest.fdp.len();
+        let mut plans: Vec<(String, Tamper, bool)> = vec![]; // (name, tamper, must be rejected by this receiver)
+        for j in 0..n {
+            plans.push((format!("foreign_path_key:{}:position {j}", if pos <= j { "at_or_above_own_entry" } else { "below_own_entry" }), Tamper { foreign_key_at: Some(j), ..Default::default() }, pos <= j));
+        }
+        if let Some(k) = my_k {
+            plans.push(("unrelated_path_secret_for_this_receiver".into(), Tamper { wrong_secret_for: Some((pos, k)), ..Default::default() }, true));
+            plans.push((
+                format!("ciphertext_list_one_short:{}", if k + 1 == reso.len() { "own_missing" } else { "other_missing" }),
+                Tamper { drop_ciphertext_at: Some(pos), ..Default::default() },
+                k + 1 == reso.len(),
+            ));
+        }
+        plans.push(("ciphertext_list_one_too_long".into(), Tamper { extra_ciphertext_at: Some(pos), ..Default::default() }, false));
+        plans.push(("consistent_commit_wrong_confirmation_tag".into(), Tamper { wrong_confirmation_tag: true, ..Default::default() }, true));
+        for (name, tamper, must) in plans {
+            let Some(f) = forge(&input, &tamper) else { continue };
+            self.ev.class(&format!("insider_forgeries:full:{}", name.split(":position").next().unwrap_or(&name)));
+            let mu = Mutation { bytes: f.bytes.clone(), label: format!("insider (hand-built commit): {name}, receiver leaf {rleaf} entry {pos} of {n}, sender leaf {leaf}, filtered direct path {:?}", honest.fdp), field: format!("insider_full_{}", name.split(':').next().unwrap_or(&name)) };
+            if must {
+                self.must_reject(w, receiver, &f.bytes, "public_commit", &mu)?;
+            } else {
+                // not detectable by this receiver (or not demanded): no panic, verdict recorded
+                let mut clone = w.parties[receiver].g().clone();
+                self.attempts += 1;
+                self.ev.eval(1);
+                match guard(|| clone.process_incoming_message_with_time(MlsMessage::from_bytes(&f.bytes)?, t)).map(|_| ()) {
+                    Err(e) if e.is_panic() => return Err(panic_failure(P, &format!("process_incoming_message(hand-built commit, {name})"), &e)),
+                    Err(e) => self.ev.class(&format!("not_demanded:{}:rejected:{}", name.split(":position").next().unwrap_or(&name), e.class())),
+                    Ok(()) => self.ev.class(&format!("not_demanded:{}:accepted", name.split(":position").next().unwrap_or(&name))),
+                }
+            }
+        }
+        Ok(())
+    }
+
     fn welcome_battery(&mut self, w: &World, info: &CommitInfo) -> CaseResult {
         let t = w.now();
         let single_joiner = info.joined.len() == 1;
@@ -580,8 +696,63 @@ impl Obs {
     }
 }
 
+impl Obs {
+    /// A clone of a member produces a proposal and a commit for the current epoch; the clone is dropped and the messages are
+    /// withheld (a delivery service delaying traffic). They are genuine for this epoch only.
+    fn withhold(&mut self, w: &World) {
+        let members = w.members();
+        if members.len() < 2 {
+            return;
+        }
+        let s = members[self.rng.below(members.len() as u64) as usize];
+        let epoch = w.parties[s].g().current_epoch();
+        let public = !w.parties[s].enc_opts.encrypt_control_messages;
+        let mut clone = w.parties[s].g().clone();
+        let cp = CustomProposal::new(ProposalType::new(CUSTOM_PROPOSAL), vec![0x77; 5]);
+        if let Ok(m) = guard(|| clone.propose_custom(cp, vec![9])) {
+            if let Ok(b) = m.to_bytes() {
+                self.withheld.push((epoch, s, if public { "withheld_public_proposal" } else { "withheld_private_proposal" }, b));
+            }
+        }
+        let mut clone = w.parties[s].g().clone();
+        let t = w.now();
+        if let Ok(o) = guard(|| clone.commit_builder().commit_time(t).build()) {
+            if let Ok(b) = o.commit_message.to_bytes() {
+                self.withheld.push((epoch, s, if public { "withheld_public_commit" } else { "withheld_private_commit" }, b));
+            }
+        }
+        while self.withheld.len() > 8 {
+            self.withheld.remove(0);
+        }
+    }
+
+    /// Cross-epoch replay: handshake messages of earlier epochs, never seen by the receivers, delivered now.
+    fn replay_withheld(&mut self, w: &World) -> CaseResult {
+        let members = w.members();
+        let now = match members.first() {
+            Some(m) => w.parties[*m].g().current_epoch(),
+            None => return Ok(()),
+        };
+        let old: Vec<_> = self.withheld.iter().filter(|x| x.0 < now).cloned().collect();
+        for (epoch, s, kind, bytes) in old {
+            for m in members.iter().copied().filter(|m| *m != s) {
+                if w.parties[m].g().current_epoch() != now {
+                    continue;
+                }
+                let mu = Mutation { bytes: bytes.clone(), label: format!("cross-epoch replay of a {kind} of epoch {epoch} into epoch {now}"), field: format!("cross_epoch_replay:{}", now - epoch) };
+                self.must_reject(w, m, &bytes, kind, &mu)?;
+            }
+        }
+        self.withheld.retain(|x| x.0 + 3 > now);
+        Ok(())
+    }
+}
+
 impl Observer for Obs {
     fn before_commit(&mut self, w: &mut World, _committer: usize) -> CaseResult {
+        if self.rng.below(2) == 0 {
+            self.withhold(w);
+        }
         self.pre_tree = w.members().first().map(|m| w.parties[*m].g().export_tree().to_bytes().unwrap_or_default());
         if self.rng.below(3) == 0 {
             self.group_info_battery(w)?;
@@ -604,6 +775,7 @@ impl Observer for Obs {
             if let Some(c) = committer {
                 self.insider(w, c, &[m], bytes, kind)?;
                 self.structural(w, c, m, bytes)?;
+                self.full_forgeries(w, c, m, bytes)?;
             }
         }
         Ok(())
@@ -613,7 +785,7 @@ impl Observer for Obs {
         if !info.joined.is_empty() && !info.external {
             self.welcome_battery(w, info)?;
         }
-        Ok(())
+        self.replay_withheld(w)
     }
 
     fn extra_op(&mut self, w: &mut World, op: &[u16; 5], _notes: &mut EpochNotes) -> CaseResult {
@@ -678,11 +850,11 @@ pub fn run(ctx: &Ctx) -> ! {
          confirmation tag, content or authenticated_data changed with a fresh membership tag; structural forgeries by the committer itself (leaf and content re-signed with its keys, parent hash recomputed over the \
          modified path by the independent tree model, MAC recomputed; two positive controls prove the forger produces acceptable messages): every shorter update path, a longer one, a wrong parent hash, another \
          member's HPKE or signature key in the new leaf, the unchanged HPKE key, a leaf signed for another index. Receivers: clones of members, the joiner's client (Welcome, tree), an external committer and an observer (GroupInfo). \
-         Oracle: never Ok, never a panic; parts of a Welcome addressed to other joiners are exempt; genuine copies are delivered afterwards and must report the true sender, payload and authenticated data. \
+         Cross-epoch replay: a proposal and a commit made by a discarded clone of a member in epoch n (so no receiver has seen them or consumed their keys) are delivered to every other member in epochs n+1 and n+2. Oracle: never Ok, never a panic; parts of a Welcome addressed to other joiners are exempt; genuine copies are delivered afterwards and must report the true sender, payload and authenticated data. \
          Non-trivial = rejection by an authentication / validation check (error class other than decode, group id, version, epoch); distinct by (message kind, mutation, receiver, epoch).",
         &hp,
         spec,
-        &|case, ev| Obs { ev, rng: SplitMix::new(((case.c(7) as u64) << 16) | case.c(8) as u64, 3), per_message, attempts: 0, pre_tree: None, last_public: vec![] },
+        &|case, ev| Obs { ev, rng: SplitMix::new(((case.c(7) as u64) << 16) | case.c(8) as u64, 3), per_message, attempts: 0, pre_tree: None, last_public: vec![], withheld: vec![] },
         &|_, o| {
             o.ev.class_n("mutation_attempts", o.attempts);
             false
